@@ -77,6 +77,9 @@ type Pkt struct {
 	Tie                     bool          // same timestamp as the previous packet of the capture
 	Gap                     time.Duration // idle time before this packet
 	V6                      bool
+	// ExtHdr: an IPv6 packet that carries a hop-by-hop options header (eight bytes of padding options) between the
+	// IPv6 header and the transport header
+	ExtHdr bool
 	// IPv4 fragmentation: the packet is one of the two fragments (1 = first, 2 = last) of the
 	// datagram described by the other fields; FragOff is the offset of the last fragment in 8-byte units
 	FragPart, FragOff int
@@ -97,6 +100,11 @@ func (p *Pkt) handshake() bool {
 func (p *Pkt) String() string {
 	if p.Noise != "" {
 		return "noise " + p.Noise
+	}
+	if p.ExtHdr {
+		q := *p
+		q.ExtHdr = false
+		return q.String() + " +hop-by-hop"
 	}
 	if p.FragPart != 0 {
 		q := *p
@@ -131,6 +139,7 @@ func dirName(d int) string {
 //	ovl    conv I P      ... as two segments [0,P) [P-1,len) (one byte sent twice)
 //	swap   conv I        packets I and I+1 of the conversation exchange their capture positions
 //	retx   conv I P Mode a copy (full | head | tail half) of data packet I follows packet P (P>=I)
+//	exthdr conv I        IPv6 packet I carries a hop-by-hop options header in front of its transport header
 //	ka     conv I        a keep-alive probe (one garbage byte at the sequence number of the last byte sent) follows data packet I
 //	dup    conv I P      an exact copy of the SYN, SYN-ACK or FIN segment I follows packet P (P = I or I+1)
 //	tie    -    I        packet I+1 of the whole capture carries the same timestamp as packet I
@@ -155,6 +164,8 @@ func (d Dev) String() string {
 		return fmt.Sprintf("retx(c%d.%d>%d,%s)", d.Conv, d.I, d.P, d.Mode)
 	case "tie":
 		return fmt.Sprintf("tie(%d)", d.I)
+	case "exthdr":
+		return fmt.Sprintf("exthdr(c%d.%d)", d.Conv, d.I)
 	case "ka":
 		return fmt.Sprintf("ka(c%d.%d)", d.Conv, d.I)
 	case "dup":
@@ -666,6 +677,16 @@ func applyConvDev(list []*Pkt, d Dev) ([]*Pkt, error) {
 		out := append([]*Pkt{}, list[:d.P+1]...)
 		out = append(out, c)
 		return append(out, list[d.P+1:]...), nil
+	case "exthdr":
+		// IPv6 packet I carries a hop-by-hop options header
+		if !p.V6 || p.ExtHdr || p.FragPart != 0 {
+			return nil, fmt.Errorf("%v: not an IPv6 packet", d)
+		}
+		c := cp(p)
+		c.ExtHdr = true
+		out := append([]*Pkt{}, list[:d.I]...)
+		out = append(out, c)
+		return append(out, list[d.I+1:]...), nil
 	case "ka":
 		// a keep-alive probe behind data packet I: one garbage byte at the sequence number of the last byte sent
 		if p.UDP || len(p.Payload) == 0 || p.SYN || p.closing() || p.FragPart != 0 || p.Retx {
@@ -738,6 +759,11 @@ func enumConvDevs(list []*Pkt, conv int) []Dev {
 		d := Dev{Kind: "swap", Conv: conv, I: i}
 		if _, err := applyConvDev(list, d); err == nil {
 			out = append(out, d)
+		}
+		if d := (Dev{Kind: "exthdr", Conv: conv, I: i}); true {
+			if _, err := applyConvDev(list, d); err == nil {
+				out = append(out, d)
+			}
 		}
 		if d := (Dev{Kind: "ka", Conv: conv, I: i}); true {
 			if _, err := applyConvDev(list, d); err == nil {
@@ -1326,6 +1352,27 @@ func (c *Capture) serialize(p *Pkt, link layers.LinkType, ipid uint16) ([]byte, 
 		return nil, err
 	}
 	whole := append([]byte{}, buf.Bytes()...)
+	if p.ExtHdr {
+		if !v6 {
+			return nil, fmt.Errorf("extension headers are generated for IPv6 only")
+		}
+		off := 0
+		switch {
+		case link == layers.LinkTypeEthernet && c.Case.Link == "vlan":
+			off = 18
+		case link == layers.LinkTypeEthernet && c.Case.Link == "qinq":
+			off = 22
+		case link == layers.LinkTypeEthernet:
+			off = 14
+		}
+		// next header of the fixed header becomes 0 (hop-by-hop options); the options header names the transport
+		// protocol, has length 0 (eight bytes) and holds one PadN option; the payload length grows by eight
+		ext := []byte{whole[off+6], 0, 1, 4, 0, 0, 0, 0}
+		whole[off+6] = 0
+		plen := int(whole[off+4])<<8 + int(whole[off+5]) + 8
+		whole[off+4], whole[off+5] = byte(plen>>8), byte(plen)
+		whole = append(whole[:off+40], append(ext, whole[off+40:]...)...)
+	}
 	if p.FragPart == 0 {
 		return whole, nil
 	}
@@ -1479,6 +1526,10 @@ func Affected(set *ConvSet, devs []Dev, il string) (int, int, bool) {
 	if d.Kind == "retx" {
 		b = d.P + 1
 	}
+	if d.Kind == "exthdr" {
+		// one packet is concerned: cut before and behind it
+		b = a
+	}
 	pa, pb := lists[d.Conv][a], lists[d.Conv][b]
 	ga, gb := -1, -1
 	for i, p := range all {
@@ -1489,7 +1540,7 @@ func Affected(set *ConvSet, devs []Dev, il string) (int, int, bool) {
 			gb = i
 		}
 	}
-	return ga, gb, ga >= 0 && gb > ga
+	return ga, gb, ga >= 0 && (gb > ga || (a == b && gb == ga))
 }
 
 // SnapshotCuts returns, for a snapshot set, the two cut positions that put the filler into a file
